@@ -169,6 +169,8 @@ fn parse_iter(e: &Expr, bare_ok: bool) -> Option<Iter> {
             Some(Iter { src: Src::Index { base: (*r.expr).clone(), by_ref: true }, adapters: vec![] })
         }
         Expr::Path(_) | Expr::Field(_) if bare_ok => Some(Iter { src: Src::Index { base: e.clone(), by_ref: false }, adapters: vec![] }),
+        // `for x in f(..)` over an owned Vec result: bound to a temporary and indexed by value
+        Expr::Call(_) if bare_ok => Some(Iter { src: Src::Index { base: e.clone(), by_ref: false }, adapters: vec![] }),
         _ => None,
     }
 }
@@ -588,12 +590,119 @@ impl<'a> Rewriter<'a> {
     }
 }
 
+
+struct CallInliner<'c> {
+    name: String,
+    clo: &'c syn::ExprClosure,
+    count: usize,
+    other_uses: usize,
+    tmp: usize,
+}
+impl<'c> VisitMut for CallInliner<'c> {
+    fn visit_expr_mut(&mut self, e: &mut Expr) {
+        visit_mut::visit_expr_mut(self, e);
+        if let Expr::Call(c) = e {
+            if let Expr::Path(p) = &*c.func {
+                if p.path.is_ident(&self.name) && c.args.len() == self.clo.inputs.len() {
+                    // the path visit below counted this occurrence as an "other use": undo
+                    self.other_uses -= 1;
+                    let mut pre: Vec<Stmt> = vec![];
+                    let mut binds: Vec<Stmt> = vec![];
+                    for (k, (a, pat)) in c.args.iter().zip(self.clo.inputs.iter()).enumerate() {
+                        let t = id(&format!("__arg{}_{}", self.tmp, k));
+                        pre.push(parse_quote!(let #t = #a;));
+                        binds.push(parse_quote!(let #pat = #t;));
+                    }
+                    self.tmp += 1;
+                    let body = &self.clo.body;
+                    let r: Expr = match &self.clo.output {
+                        syn::ReturnType::Type(_, ty) => parse_quote!({ #(#pre)* #(#binds)* let __clo_ret: #ty = #body; __clo_ret }),
+                        syn::ReturnType::Default => parse_quote!({ #(#pre)* #(#binds)* #body }),
+                    };
+                    *e = r;
+                    self.count += 1;
+                }
+            }
+        }
+    }
+    fn visit_expr_path_mut(&mut self, p: &mut syn::ExprPath) {
+        if p.path.is_ident(&self.name) {
+            self.other_uses += 1;
+        }
+    }
+}
+
+impl<'a> Rewriter<'a> {
+    /// N17: `let f = |a, b| -> T { .. };` (non-move, immutable) whose only uses are direct calls is
+    /// beta-reduced at each call site: arguments are evaluated once, in order, into temporaries.
+    fn inline_let_closures(&mut self, b: &mut Block) {
+        let mut i = 0;
+        while i < b.stmts.len() {
+            let found = match &b.stmts[i] {
+                Stmt::Local(l) => match (&l.pat, &l.init) {
+                    (Pat::Ident(pi), Some(init)) if pi.mutability.is_none() && pi.by_ref.is_none() => match strip_paren(&init.expr) {
+                        Expr::Closure(c) if c.capture.is_none() && init.diverge.is_none() => Some((pi.ident.to_string(), c.clone(), l.span())),
+                        _ => None,
+                    },
+                    _ => None,
+                },
+                _ => None,
+            };
+            let Some((name, clo, sp)) = found else { i += 1; continue; };
+            let mut hr = HasReturn(false);
+            hr.visit_expr(&clo.body);
+            if hr.0 { i += 1; continue; }
+            // free identifiers of the closure body must not be re-bound between definition and use
+            let mut body_ids = IdentCollector(Default::default());
+            body_ids.visit_expr(&clo.body);
+            let mut rebound = false;
+            for s in &b.stmts[i + 1..] {
+                if let Stmt::Local(l) = s {
+                    let mut pats = PatIdents(vec![]);
+                    pats.visit_pat(&l.pat);
+                    if pats.0.iter().any(|x| body_ids.0.contains(x)) { rebound = true; }
+                }
+            }
+            if rebound {
+                self.n.errors.push(format!("closure `{name}` at source line {}: a captured name is re-bound later in the block; not inlined", sp.start().line));
+                i += 1;
+                continue;
+            }
+            let mut inl = CallInliner { name: name.clone(), clo: &clo, count: 0, other_uses: 0, tmp: self.n.tmp };
+            let mut rest: Vec<Stmt> = b.stmts[i + 1..].to_vec();
+            for s in rest.iter_mut() { inl.visit_stmt_mut(s); }
+            if inl.other_uses > 0 {
+                // used as a value somewhere: leave everything untouched
+                i += 1;
+                continue;
+            }
+            self.n.tmp = inl.tmp;
+            let cnt = inl.count;
+            b.stmts.truncate(i);
+            b.stmts.extend(rest);
+            self.n.rule("N17", sp, &format!("let-bound closure `{name}` beta-reduced at {cnt} call site(s)"));
+        }
+    }
+}
+
+#[derive(Default)]
+struct IdentCollector(std::collections::BTreeSet<String>);
+impl<'x> Visit<'x> for IdentCollector {
+    fn visit_expr_path(&mut self, p: &'x syn::ExprPath) {
+        if let Some(i) = p.path.get_ident() { self.0.insert(i.to_string()); }
+    }
+}
+struct PatIdents(Vec<String>);
+impl<'x> Visit<'x> for PatIdents {
+    fn visit_pat_ident(&mut self, i: &'x syn::PatIdent) { self.0.push(i.ident.to_string()); }
+}
+
 impl<'a> VisitMut for Rewriter<'a> {
     fn visit_block_mut(&mut self, b: &mut Block) {
+        self.inline_let_closures(b);
         let stmts = std::mem::take(&mut b.stmts);
         let mut out = Vec::new();
         for s in stmts {
-            // drop statements under #[cfg(feature = "profile")] and similar non-default cfgs
             out.extend(self.rewrite_stmt(s));
         }
         b.stmts = out;
